@@ -41,6 +41,7 @@ type Engine struct {
 	worklist  []*State
 	base      *State // post-init snapshot
 	baseObjs  []*Object
+	prof      map[*ssa.Function]int
 
 	// per-run results
 	Paths      int
@@ -305,6 +306,12 @@ func (e *Engine) runSteps(st *State, concrete bool) (done bool, out Outcome) {
 			return true, Outcome{Kind: OutUnwind, Label: fmt.Sprintf("step budget %d exhausted", e.StepBudget), Site: st.site(), Stack: st.stack()}
 		}
 		st.steps++
+		if e.Verbose > 1 {
+			if e.prof == nil {
+				e.prof = map[*ssa.Function]int{}
+			}
+			e.prof[f.fn]++
+		}
 		in := f.block.Instrs[f.pc]
 		st.exec(f, in)
 	}
@@ -326,8 +333,11 @@ func (e *Engine) handleFork(st *State, cond *T) *Outcome {
 		n := st.clone()
 		n.model = m
 		n.addPC(other)
+		n.subst[cond] = c.Bool(!side)
 		e.worklist = append(e.worklist, n)
 		st.addPC(mine)
+		st.subst[cond] = c.Bool(side)
+		st.memo = map[*T]*T{}
 	case Unsat:
 		// implied: remember without growing the PC
 		st.learn(mine, c.True)
@@ -361,6 +371,9 @@ func (e *Engine) handleConc(st *State, r concReq) *Outcome {
 			n := st.clone()
 			n.model = m
 			n.addPC(excl)
+			if e.Verbose > 0 {
+				fmt.Fprintf(os.Stderr, "conc cap exceeded for term %s\n", trunc(t.String(), 600))
+			}
 			n.done = &Outcome{Kind: OutUnsupported, Label: fmt.Sprintf("concretisation cap %d exceeded (%s)", r.cap, r.why), Site: st.site(), Stack: st.stack(), Model: m}
 			e.worklist = append(e.worklist, n)
 			break
@@ -369,10 +382,13 @@ func (e *Engine) handleConc(st *State, r concReq) *Outcome {
 		n := st.clone()
 		n.model = m
 		n.addPC(c.Eq(t, c.Const(v, t.W)))
+		n.subst[t] = c.Const(v, t.W) // the PC implies it even when the equality was decomposed
 		e.worklist = append(e.worklist, n)
 		excl = c.BAnd(excl, c.Ne(t, c.Const(v, t.W)))
 	}
 	st.addPC(c.Eq(t, c.Const(v0, t.W)))
+	st.subst[t] = c.Const(v0, t.W)
+	st.memo = map[*T]*T{}
 	return nil
 }
 
@@ -418,6 +434,9 @@ func (e *Engine) query(st *State, extra *T) (Result, *Model) {
 	}
 	want := make([]*T, 0, len(need))
 	for v := range need {
+		if strings.HasPrefix(v.Name, "uf$") {
+			continue
+		}
 		want = append(want, v)
 	}
 	sort.Slice(want, func(i, j int) bool { return want[i].ID < want[j].ID })
@@ -526,5 +545,23 @@ func (st *State) ReachedLabels() []string {
 		out = append(out, k)
 	}
 	sort.Strings(out)
+	return out
+}
+
+// ProfileTop returns the functions with most executed instructions (Verbose > 1).
+func (e *Engine) ProfileTop(n int) []string {
+	type kv struct {
+		f *ssa.Function
+		n int
+	}
+	var l []kv
+	for f, c := range e.prof {
+		l = append(l, kv{f, c})
+	}
+	sort.Slice(l, func(i, j int) bool { return l[i].n > l[j].n })
+	var out []string
+	for i := 0; i < len(l) && i < n; i++ {
+		out = append(out, fmt.Sprintf("%8d %s", l[i].n, l[i].f.String()))
+	}
 	return out
 }
